@@ -17,9 +17,10 @@ Model of `html5ever/src/serialize/mod.rs` (HtmlSerializer) and of the traversal
 * I/O errors of the writer are not modelled (the writer is a `Vec<u8>`).
 
 ### Switches for the defects found on the pinned tree  (FLIP HERE: `Cfg.current`)
-`Cfg.current` describes the code as it is.  After a fix lands in /repo set the corresponding
-field of `Cfg.current` to `true`; nothing else in the model changes (see the end of
-`H5V/Props/C07.lean` for the theorems to swap).
+`Cfg.current` describes the code as it is: since the `fix:` commits 423f1bc / b9175dc / f7b6360 all
+three switches are on.  `Cfg.pinned` is the snapshot before them (all off).  Should a fix be
+reverted, clear the corresponding field of `Cfg.current`; `H5V/Props/C07.lean` section 6 then
+stops compiling, which is the alarm.
 -/
 namespace H5V.Model.HtmlSer
 
@@ -35,8 +36,13 @@ structure Cfg where
   fixVoid : Bool
 deriving Repr, DecidableEq
 
-/-- FLIP HERE — the tree as it is today: nothing fixed. -/
-def Cfg.current : Cfg := { fixC2 := false, fixNs := false, fixVoid := false }
+/-- the pinned snapshot (before the `fix:` commits 423f1bc, b9175dc, f7b6360): nothing fixed.
+Kept so that the negative witnesses of `H5V.Props.C07` stay stated about a named configuration. -/
+def Cfg.pinned : Cfg := { fixC2 := false, fixNs := false, fixVoid := false }
+
+/-- FLIP HERE — the tree as it is today: all three serializer fixes are committed in /repo
+(D1 423f1bc, D2 b9175dc, D3 f7b6360). -/
+def Cfg.current : Cfg := { fixC2 := true, fixNs := true, fixVoid := true }
 
 def Cfg.allFixed : Cfg := { fixC2 := true, fixNs := true, fixVoid := true }
 
